@@ -424,8 +424,13 @@ func (tr *FnTrans) frameChecks() {
 					break
 				}
 				found := false
+				root := path
+				if i := strings.Index(root, "."); i >= 0 {
+					root = root[:i]
+				}
 				for _, a := range allowed {
-					if okShape && a == path {
+					if okShape && (a == path || a == "pointee("+root+")") {
+						// pointee(p): everything reachable from the pointer parameter p, in particular *p itself
 						found = true
 					}
 				}
